@@ -359,7 +359,8 @@ def _run_task(c, cid, st, tier, timeout_ms, both, seed, t0):
     native = {"runs": 0, "failed": []}
     if c.native_samples is not None:
         import random
-        rnd = random.Random(seed * 7919 + hash(json.dumps(st, sort_keys=True, default=str)) % 10007)
+        import zlib
+        rnd = random.Random(seed * 7919 + zlib.crc32(json.dumps(st, sort_keys=True, default=str).encode()) % 10007)   # stable across processes
         for vals in c.native_samples(st, rnd, tier):
             r = replay_one(cid, st, vals, None)
             native["runs"] += 1
@@ -404,3 +405,78 @@ def replay_one(cid, st, values, obligation_name):
     evaluated = obligation_name is not None and any(o.name == obligation_name for o in ctx.obligations)
     return {"values": values, "failed": failed, "confirmed": confirmed, "error": err, "touched": list(caller.touched.values()),
             "checked": len(ctx.obligations), "evaluated": evaluated}
+
+
+# ---------------------------------------------------------------------------------------------------------------------
+# ghost containers: an OPAQUE old value of unknown size plus the updates recorded during the call (unbounded contracts)
+
+class GhostUnsupported(Unsupported):
+    pass
+
+
+class GhostList:
+    """a list whose old content (any length) is opaque; only the operations recorded here are allowed"""
+
+    def __init__(self, name):
+        self._name, self.appended = name, []
+
+    def append(self, x):
+        self.appended.append(x)
+
+    def __getattr__(self, a):
+        raise GhostUnsupported(f"operation .{a} on the opaque list {self._name}")
+
+    def __iter__(self):
+        raise GhostUnsupported(f"iteration over the opaque list {self._name}")
+
+    def __len__(self):
+        raise GhostUnsupported(f"len() of the opaque list {self._name}")
+
+
+class GhostSet:
+    def __init__(self, name):
+        self._name, self.added = name, []
+
+    def add(self, x):
+        self.added.append(x)
+
+    def __getattr__(self, a):
+        raise GhostUnsupported(f"operation .{a} on the opaque set {self._name}")
+
+    def __iter__(self):
+        raise GhostUnsupported(f"iteration over the opaque set {self._name}")
+
+
+class GhostDict:
+    """a dict whose old content is opaque: get(k, 0) of the old value is the symbolic integer old[k] >= 0 (0 when absent)"""
+
+    def __init__(self, name, ctx):
+        self._name, self._ctx, self.written, self._old = name, ctx, {}, {}
+
+    def old(self, k):
+        import z3
+        if k not in self._old:
+            if self._ctx.symbolic:
+                a = z3.Int(f"{self._name}[{k!r}]")
+                self._ctx.side.append(a >= 0)
+                self._old[k] = Poly.atom(a, name=f"{self._name}[{k!r}]", isint=True)
+                self._ctx.inputs[f"{self._name}[{k!r}]"] = self._old[k]
+            else:
+                self._old[k] = int(self._ctx.concrete.get(f"{self._name}[{k!r}]", 0))
+        return self._old[k]
+
+    def get(self, k, default=None):
+        if k in self.written:
+            return self.written[k]
+        if default != 0:
+            raise GhostUnsupported("get() with a default other than 0 on an opaque dict")
+        return self.old(k)
+
+    def __setitem__(self, k, v):
+        self.written[k] = v
+
+    def __getattr__(self, a):
+        raise GhostUnsupported(f"operation .{a} on the opaque dict {self._name}")
+
+    def __iter__(self):
+        raise GhostUnsupported(f"iteration over the opaque dict {self._name}")
